@@ -557,7 +557,8 @@ def main(ctx):
         'back with an independent splitter + http.cookies._unquote',
         'unicodedata.normalize(NFKD) and datetime.strftime / falcon.util.dt_to_http are oracles (their text is '
         'passed to the model as data)',
-        'str.encode()/bytes.decode("utf-8") are inverse on scalar values (decode-back is proved at the octet level)',
+        'decode-back is proved against C10\'s model of falcon.util.uri.decode (tied to the real function by the C10 check) and '
+        'coq/lib/Utf8.v; the harness also runs the real uri.decode on every emitted URI value / ext-value',
         'header names are ASCII (str.lower modelled on ASCII only)',
     ]
     for o in common.corpus('C15'):
@@ -574,6 +575,7 @@ def main(ctx):
     oracle_cases, oracle_meta = judge_histories(ctx, model, hists, results, specs)
     run_emit_oracles(ctx, model, hists, results, oracle_cases, oracle_meta)
     cookie_checks(ctx, model, falcon, 3000 if quick else 30000)
+    cookie_order_checks(ctx, model, falcon, 300 if quick else 3000)
     uri_checks(ctx, model, falcon, 6000 if quick else 60000)
     e2e(ctx, model, falcon, 150 if quick else 1500)
     report_disagreements(ctx)
@@ -732,6 +734,120 @@ def shape_of(hist):
     return s
 
 
+# --------------------------------------------------------------------------- cookie emission order
+
+def cookie_order_checks(ctx, model, falcon, n):
+    """Long cookie histories (20-80 calls on a handful of names, re-sets, unsets, failing calls, raw
+    Set-Cookie lines in between) on falcon.Response and falcon.asgi.Response; the emitted list is taken
+    after EVERY call.  (a) the whole run vs the model, ordered (step correspondence); (b) binding: the
+    proved order oracle cookie_order_ok on the REAL lists around every successful call -- a cookie set
+    again moves to the end of the Set-Cookie block, an unset one keeps its place
+    (C15_set_cookie_order, C15_unset_cookie_order, C15_emitted_cookie_order)."""
+    import falcon.asgi
+    rng = ctx.rng
+    names = ['a', 'b', 'sid', 'A', 'x-y', 'tok_1']
+    hists = []
+    for h in range(n):
+        sd = rng.random() < 0.5
+        asgi = h % 2 == 1
+        emit = (lambda: (('emit_a', None), [13, []])) if asgi else (lambda: (('emit_w', None), [12, []]))
+        ops = []
+        for _ in range(rng.randint(20, 80)):
+            r = rng.random()
+            if r < 0.68:
+                a, w = gen_cookie_args(rng)
+                if rng.random() < 0.9:
+                    nm = rng.choice(names)
+                    a = (nm,) + a[1:]
+                    w = [nm] + w[1:]
+                if rng.random() < 0.85:     # mostly ASCII attributes, so that the ASGI emitter rarely raises
+                    kw = dict(a[2])
+                    if kw['domain'] == 'é.com':
+                        kw['domain'] = 'example.com'
+                        w[4] = ['example.com']
+                    if kw['path'] == '/é':
+                        kw['path'] = '/a/b'
+                        w[5] = ['/a/b']
+                    a = (a[0], a[1], kw)
+                ops.append((('set_cookie', a), [9, w]))
+            elif r < 0.88:
+                nm = rng.choice(names) if rng.random() < 0.9 else rng.choice(COOKIE_NAMES)
+                ss = rng.choice(['Lax', 'Strict', '', 'None'])
+                ops.append((('unset_cookie', nm, ss, None, None), [10, nm, ss, [], []]))
+            elif r < 0.95:
+                v = 'raw%d=1' % len(ops)
+                ops.append((('append', rcase(rng, 'Set-Cookie'), v), [2, 'set-cookie', [0, v]]))
+            else:
+                n_ = rng.choice(['X-Foo', 'Vary'])
+                ops.append((('set', n_, 'v'), [1, n_, [0, 'v']]))
+            ops.append(emit())
+        hists.append((sd, asgi, ops))
+    # (a) against the model, operation by operation, ordered
+    _, results, _ = run_histories_plain(ctx, model, falcon, hists)
+    ocases, ometa = [], []
+    for hi, ((sd, asgi, ops), (impl, mobs)) in enumerate(zip(hists, results)):
+        ctx.note_case(('cookie-order', hi, ctx.seed), True)
+        ctx.count('cookie-order-asgi' if asgi else 'cookie-order-wsgi')
+        prev = []          # cookie names of the last real emission (jar part)
+        n_raw = 0
+        ok_hist = True
+        for i, ((o, w), a, b) in enumerate(zip(ops, impl, mobs)):
+            if o[0] == 'append' and a == ('none',):
+                n_raw += 1
+            if a[0] == 'items':
+                lines = [it[2] for it in a[1] if it[0] == 'set-cookie-line']
+                jar_lines = lines[n_raw:]
+                cur = [parse_cookie_line(x)[0] for x in jar_lines]
+                po, pa = ops[i - 1][0], impl[i - 1]
+                if po[0] in ('set_cookie', 'unset_cookie') and pa == ('none',) and prev is not None:
+                    nm = po[1][0] if po[0] == 'set_cookie' else po[1]
+                    ocases.append([10, 0 if po[0] == 'set_cookie' else 1, prev, nm, cur])
+                    ometa.append((hi, i, po[0], nm, list(prev), cur))
+                prev = cur
+                if b[0] == 'items':
+                    a = ('items', canon_items(a[1], b[1]))
+            elif o[0] in ('emit_w', 'emit_a'):
+                prev = None      # the emission raised (e.g. a non-ASCII attribute on ASGI): order unknown
+            same = (a[1] == b[1]) if (a[0] == 'err' and b[0] == 'err') else (a == b)
+            if not same and ok_hist:
+                ok_hist = False
+                disagreements.append(('cookie-order-' + o[0],
+                                      {'what': 'long cookie history: operation %d (%s) observed differently on falcon.%sResponse '
+                                               'and the model' % (i, o[0], 'asgi.' if asgi else ''),
+                                       'history': hist_json(sd, asgi, ops[:i + 1]), 'op_index': i, 'impl': repr(a)[:2000],
+                                       'model': repr(b)[:2000]}))
+    outs = model.run_many(ocases)
+    for (hi, i, kind, nm, before, after), ok in zip(ometa, outs):
+        ctx.count('cookie-order-oracle-' + kind)
+        ctx.count('cookie-order-oracle-' + ('asgi' if hists[hi][1] else 'wsgi'))
+        if not ok:
+            sd, asgi, ops = hists[hi]
+            # the order of Set-Cookie lines is not a clause of the property: a deviation is a break of the
+            # model correspondence (C15_set_cookie_order / C15_unset_cookie_order / C15_emitted_cookie_order)
+            ctx.violation('correspondence-broken',
+                          {'broken': 'C15.cookie_emission_order (C15_set_cookie_order / C15_unset_cookie_order / '
+                                     'C15_emitted_cookie_order)',
+                           'what': 'after a successful %s(%r) the Set-Cookie block of the emitted list is not in the order the '
+                                   'model proves (re-set cookie last / unset cookie in place)' % (kind, nm),
+                           'interface': 'asgi' if asgi else 'wsgi', 'names_before': before, 'names_after': after,
+                           'history': hist_json(sd, asgi, ops[:i + 1]), 'op_index': i}, found_input=False,
+                          key='cookie-order-' + kind)
+
+
+def run_histories_plain(ctx, model, falcon, hists, fixed=True):
+    """Run given histories on the real classes and on the model (no trailing reads)."""
+    import falcon.asgi
+    outs = model.run_many([[0, fixed, sd, [w for _, w in ops]] for sd, asgi, ops in hists])
+    results = []
+    for (sd, asgi, ops), out in zip(hists, outs):
+        opts = falcon.ResponseOptions()
+        opts.secure_cookies_by_default = sd
+        resp = (falcon.asgi.Response if asgi else falcon.Response)(options=opts)
+        impl = [apply_op(resp, o, asgi) for o, _ in ops]
+        results.append((impl, [py_obs(v) for v in out[0]]))
+    return hists, results, None
+
+
 # --------------------------------------------------------------------------- URI-bearing helpers
 
 def parse_link_target(v):
@@ -740,12 +856,14 @@ def parse_link_target(v):
 
 
 def uri_checks(ctx, model, falcon, n):
+    from falcon.util import uri
     rng = ctx.rng
     cases, meta = [], []
 
     def add(kind, isv, chk, s, out):
         cases.append([2, isv, chk, s, out])
         cases.append([1, isv, chk, s])
+        cases.append([9, isv, chk, s])
         meta.append((kind, isv, chk, s, out))
 
     cd_cases, cd_meta = [], []
@@ -785,7 +903,7 @@ def uri_checks(ctx, model, falcon, n):
             continue
     outs = model.run_many(cases)
     for j, (kind, isv, chk, s, out) in enumerate(meta):
-        ok, enc = outs[2 * j], outs[2 * j + 1]
+        ok, enc, taken = outs[3 * j], outs[3 * j + 1], outs[3 * j + 2]
         ctx.count('uri-' + kind)
         ctx.note_case(('uri', kind, s), out != s)
         menc = common.wstr(enc[1]) if enc[0] == 1 else None
@@ -797,6 +915,17 @@ def uri_checks(ctx, model, falcon, n):
                                             'UTF-8 octets of the original'), key='uri-' + kind)
         elif menc != out:
             disagreements.append(('uri-' + kind, dict(detail, what='uri encoder output differs from the model')))
+        # C15_uri_setters_decode_back / C15_uri_oracle_implies_decode, on the real decoder: outside the
+        # documented taken-as-escaped region falcon's own uri.decode returns the original
+        if not taken:
+            ctx.count('uri-decode-back')
+            back = [uri.decode(out, unquote_plus=False)] + ([uri.decode(out, unquote_plus=True)] if isv else [])
+            if any(b != s for b in back):
+                ctx.violation('uri-value-does-not-decode-back',
+                              dict(detail, uri_decode=back, what='falcon.util.uri.decode of the emitted value is not the '
+                                                                 'original'), key='uri-back-' + kind)
+        else:
+            ctx.count('uri-taken-as-escaped')
     outs = model.run_many(cd_cases)
     for j, (which, dt, s, out) in enumerate(cd_meta):
         ok, enc = outs[2 * j], outs[2 * j + 1]
@@ -813,6 +942,14 @@ def uri_checks(ctx, model, falcon, n):
                           key='cd-' + detail['shape'])
         elif menc != out:
             disagreements.append(('content-disposition', dict(detail, what='Content-Disposition differs from the model')))
+        if not s.isascii() and "filename*=UTF-8''" in out:
+            # C15_content_disposition_ext_value / C15_cd_oracle_implies_decode on the real decoder
+            ev = out[out.index("filename*=UTF-8''") + 17:]
+            ctx.count('cd-ext-value-decode-back')
+            if uri.decode(ev, unquote_plus=False) != s:
+                ctx.violation('content-disposition-not-decodable',
+                              dict(detail, ext_value=ev, uri_decode=uri.decode(ev, unquote_plus=False),
+                                   what='the RFC 8187 ext-value does not decode to the filename'), key='cd-ext-back')
     if meta:
         ctx.sample({'uri': meta[0][3], 'emitted': meta[0][4]})
 
